@@ -152,6 +152,16 @@ def r082(an, rep):
                     f"for an object that is not a {ci.name}, __eq__ does more than `return False` / `return NotImplemented`: a {ci.name} can compare equal to a bare value "
                     f"(e.g. {ci.name}(0) == 0) whose hash is not the hash of the {ci.name}, and through the generated __eq__ of the enclosing classes two values that encode "
                     f"differently compare equal")
+            # no shortcut to True that skips a field: only `self is other` may answer True before every key has been compared
+            selfn = params[0]
+            for st in ast.walk(eqm.node):
+                if isinstance(st, ast.If) and any(isinstance(b, ast.Return) and isinstance(b.value, ast.Constant) and b.value.value is True for b in st.body):
+                    t = st.test
+                    whole = isinstance(t, ast.Compare) and len(t.ops) == 1 and isinstance(t.ops[0], ast.Is) and {norm_src(t.left), norm_src(t.comparators[0])} == {selfn, other}
+                    rep.add("R08.2", f"{ci.qual}::__eq__ answers True only after every key was compared", whole, loc(ci.module, st),
+                            "`self is other` is the only shortcut" if whole else
+                            f"`if {norm_src(t)[:70]}: return True` answers before the remaining fields are compared: two {ci.name} values that differ in a field not mentioned in that test "
+                            f"(e.g. the position override of two constants holding the same nested code object) are equal, their hashes differ, and they encode differently")
             fields_in_eq = _self_fields(eq_keys, ci)
             missing = [f.name for f in ci.fields if f.name not in fields_in_eq]
             rep.add("R08.2", f"{ci.qual}::__eq__ covers every field", not missing, w,
@@ -314,7 +324,8 @@ def r084(an, rep, rule="R08.4", nan_sign_matters=False):
             # several returns (a shortcut plus the general case): the shape rule does not apply, the witness partition below decides the arm
             rep.add(rule, f"{cur.qual}::{leaf}", True, loc(cur.module, node), f"arm has {len(rets)} returns: decided by the witness partition only", nontrivial=False)
             continue
-        rv = rets[0].value
+        from .encode_model import inline_locals
+        rv = inline_locals(cur.node, rets[0].value)  # `tp = type(value)` ... `return (tp, value)` reads as `(type(value), value)`
         w = loc(cur.module, rets[0])
         if leaf in ("bool", "int", "float", "complex"):
             tagged = isinstance(rv, ast.Tuple) and any(
